@@ -9,6 +9,7 @@ import (
 	"go/ast"
 	"go/token"
 	"go/types"
+	"os"
 	"sort"
 	"strings"
 )
@@ -128,6 +129,23 @@ func (c *Ctx) parseSlotsOf(fn string, fd *ast.FuncDecl, slotOf func(semis, cases
 	in := newInterp(c)
 	in.NoReturn = func(o types.Object) bool { return c.noReturnFuncs()[o] }
 	in.Inline = c.isNewHelper
+	// the parser moves on: p.Token read after a parse call is not the p.Token read before it
+	// (without this a second `if p.Token.Symbol == "{"` contradicts the first and its branch —
+	// the `for cond {` form — is never analysed)
+	in.H.Post = func(in *Interp, st *State, e ast.Expr, t *T) *T {
+		if t.Op == "field" && t.Name == "Token" && len(t.Args) == 1 && t.Args[0].Op == "var" {
+			epoch := 0
+			for _, ef := range st.Eff {
+				if ef.Kind == "call" && ef.Value != nil && strings.HasPrefix(ef.Value.Name, "parser.") {
+					epoch++
+				}
+			}
+			if epoch > 0 {
+				return &T{Op: "field", Name: fmt.Sprintf("Token@%d", epoch), Args: t.Args}
+			}
+		}
+		return nil
+	}
 	in.H.Loop = func(in *Interp, st *State, s ast.Stmt) []*State {
 		var body *ast.BlockStmt
 		switch l := s.(type) {
@@ -145,6 +163,11 @@ func (c *Ctx) parseSlotsOf(fn string, fd *ast.FuncDecl, slotOf func(semis, cases
 		return res
 	}
 	paths := in.ExecFunc(fd, nil)
+	if os.Getenv("GOATCHECK_DEBUG") == fn {
+		for _, p := range paths {
+			fmt.Fprintln(os.Stderr, "SLOTPATH", condStrings(p))
+		}
+	}
 	var out []roleSlot
 	var problems []string
 	if in.Overflow {
